@@ -2,6 +2,7 @@
 //
 //	go run . parfacts      the access facts of every fork–join region of lib/query
 //	go run . recordrange   the arithmetic of GoroutineTaskManager.RecordRange as a Lean definition
+//	go run . routine       the goroutine-slot bookkeeping (AssignRoutineNumber, Release, Done, SetCPU) as Lean definitions
 //
 // Source tree: $VERIF_REPO (default /repo).  Standard library only.  Any construct without a rule makes
 // the program exit with status 1 (the check then reports an undischarged obligation, never "holds").
@@ -28,6 +29,8 @@ func main() {
 		genParFacts()
 	case "recordrange":
 		genRecordRange()
+	case "routine":
+		genRoutine()
 	default:
 		fatal("unknown mode %q", mode)
 	}
